@@ -255,6 +255,7 @@ func (eng *Engine) verifyFunction(p *Pkg, key string, ct *Contract) (res *FuncRe
 	var decl *ast.FuncDecl
 	var sig *types.Signature
 	isClosure := false
+	outerLits := 0
 	if i := strings.LastIndex(key, "$"); i > 0 && !strings.HasPrefix(key, "$") {
 		// closure contract Outer$N: the N-th function literal (source order) inside Outer
 		_, outer := p.findFunc(key[:i])
@@ -271,6 +272,7 @@ func (eng *Engine) verifyFunction(p *Pkg, key string, ct *Contract) (res *FuncRe
 				}
 				return true
 			})
+			outerLits = k
 		}
 		isClosure = true
 	} else {
@@ -284,8 +286,12 @@ func (eng *Engine) verifyFunction(p *Pkg, key string, ct *Contract) (res *FuncRe
 		return res
 	}
 	if ct != nil && ct.Shape != "" {
-		if now := shapeOf(p, decl, sig); now != ct.Shape {
-			res.Unsupported = "contract is stale: the shape of the function (receiver / parameter / result names and types, loop forms, number of function literals) is not the one the contract was written for - was `" + ct.Shape + "`, is `" + now + "`"
+		now := shapeOf(p, decl, sig)
+		if isClosure {
+			now += fmt.Sprintf(";outerlits=%d", outerLits)
+		}
+		if why := shapeStale(ct, ct.Shape, now); why != "" {
+			res.Unsupported = "contract is stale: " + why + " - the contract was written for `" + ct.Shape + "`, the function is `" + now + "`"
 			return res
 		}
 	}
@@ -1109,4 +1115,93 @@ func shapeOf(p *Pkg, decl *ast.FuncDecl, sig *types.Signature) string {
 	sort.Strings(fvl)
 	fmt.Fprintf(&b, ";loops=%s;lits=%d;fv=%s", strings.Join(loops, ","), lits, strings.Join(fvl, ","))
 	return strings.ReplaceAll(b.String(), "\n", " ")
+}
+
+// shapeStale compares the recorded shape with the current one, component by component, and says why the contract can
+// no longer be trusted to talk about this body ("" if it can):
+//   - receiver / parameter names or types, or result TYPES, differ (clauses name parameters; results are resultN);
+//   - the contract has loop clauses and the NUMBER of loops differs (ordinals), or it has `decreases` clauses and a loop
+//     changed its form (a termination measure is tied to the loop variable);
+//   - a function-value call the body used to make is gone (clauses and externs are keyed on that text);
+//   - for a literal `Outer$N`: the number of literals in Outer differs (ordinal).
+// Anything else that changed (a loop turned from `for { select }` into `for range`, a literal added, a result given a
+// name, a new function-value call) is the kind of change a defect is made of: the obligations are generated and judged.
+func shapeStale(ct *Contract, was, now string) string {
+	parse := func(s string) map[string]string {
+		m := map[string]string{}
+		// sig may contain ';' only inside types (it does not); split on the known keys from the right
+		for _, k := range []string{";outerlits=", ";fv=", ";lits=", ";loops="} {
+			if i := strings.LastIndex(s, k); i >= 0 {
+				m[strings.Trim(k, ";=")] = s[i+len(k):]
+				s = s[:i]
+			}
+		}
+		m["sig"] = strings.TrimPrefix(s, "sig=")
+		return m
+	}
+	a, b := parse(was), parse(now)
+	// signature: receiver+params verbatim, results by type only
+	splitSig := func(sg string) (string, string) {
+		// the last balanced (...) group is the result tuple
+		depth := 0
+		for i := len(sg) - 1; i >= 0; i-- {
+			switch sg[i] {
+			case ')':
+				depth++
+			case '(':
+				depth--
+				if depth == 0 {
+					return sg[:i], sg[i:]
+				}
+			}
+		}
+		return sg, ""
+	}
+	resTypes := func(r string) string {
+		r = strings.TrimSuffix(strings.TrimPrefix(r, "("), ")")
+		var out []string
+		for _, part := range splitTopLevel(r, ',') {
+			part = strings.TrimSpace(part)
+			if i := strings.Index(part, " "); i >= 0 && !strings.HasPrefix(part, "func") && !strings.HasPrefix(part, "map[") && !strings.HasPrefix(part, "chan ") && !strings.HasPrefix(part, "<-") && !strings.HasPrefix(part, "struct") && !strings.HasPrefix(part, "interface") {
+				part = strings.TrimSpace(part[i+1:])
+			}
+			out = append(out, part)
+		}
+		return strings.Join(out, ",")
+	}
+	ap, ar := splitSig(a["sig"])
+	bp, br := splitSig(b["sig"])
+	if ap != bp {
+		return "receiver or parameters changed"
+	}
+	if resTypes(ar) != resTypes(br) {
+		return "result types changed"
+	}
+	hasLoopClauses := len(ct.LoopInv) > 0 || len(ct.LoopDec) > 0 || len(ct.LoopMod) > 0
+	la, lb := strings.Split(a["loops"], ","), strings.Split(b["loops"], ",")
+	if a["loops"] == "" {
+		la = nil
+	}
+	if b["loops"] == "" {
+		lb = nil
+	}
+	if hasLoopClauses && len(la) != len(lb) {
+		return "the number of loops changed and the contract has loop clauses (they go by ordinal)"
+	}
+	if len(ct.LoopDec) > 0 && a["loops"] != b["loops"] {
+		return "a loop changed its form and the contract has `decreases` clauses"
+	}
+	have := map[string]bool{}
+	for _, f := range strings.Split(b["fv"], ",") {
+		have[f] = true
+	}
+	for _, f := range strings.Split(a["fv"], ",") {
+		if f != "" && !have[f] {
+			return "the call through function value `" + f + "` is gone (clauses and externs are keyed on that text)"
+		}
+	}
+	if a["outerlits"] != b["outerlits"] {
+		return "the number of function literals in the enclosing function changed (`Outer$N` goes by ordinal)"
+	}
+	return ""
 }
